@@ -1,10 +1,14 @@
 //! Registry of properties.
 use crate::common::Prop;
 
+pub mod c12;
+pub mod c14;
+pub mod c15;
+pub mod c18;
 pub mod engine;
 
 pub fn ids() -> Vec<&'static str> {
-    vec!["C01", "C02", "C03", "C04", "C05", "C07", "C08", "C09", "C16"]
+    vec!["C01", "C02", "C03", "C04", "C05", "C07", "C08", "C09", "C12", "C14", "C15", "C16", "C18"]
 }
 
 pub fn get(id: &str) -> Option<Box<dyn Prop>> {
@@ -17,7 +21,11 @@ pub fn get(id: &str) -> Option<Box<dyn Prop>> {
         "C07" => Box::new(engine::c07()),
         "C08" => Box::new(engine::c08()),
         "C09" => Box::new(engine::c09()),
+        "C12" => Box::new(c12::c12()),
+        "C14" => Box::new(c14::C14),
+        "C15" => Box::new(c15::C15),
         "C16" => Box::new(engine::c16()),
+        "C18" => Box::new(c18::C18),
         _ => return None,
     })
 }
